@@ -1,6 +1,6 @@
 (* Props/C06.v -- Translating between HTTP versions preserves message semantics.
    Statements only; each is closed by [exact] of a lemma proved in Proofs/HttpTranslate*.v.
-   The model (Model/HttpTranslate.v) describes the tree repaired by fixes/C06-*.diff.  The dependency of the
+   The model (Model/HttpTranslate.v) describes /repo HEAD plus fixes/C06-host-raw-authority.diff (Host from the raw :authority bytes).  The dependency of the
    no-splitting clause on hyper-h2 is explicit: down_request / down_response start with the boolean contract
    h2_validate (what h2.utilities.validate_headers rejects) and the content-length bookkeeping of H2Stream. *)
 From Coq Require Import List Bool NArith ZArith.
@@ -26,7 +26,15 @@ Print Assumptions C06_response_decided.
 
 (* HTTP/2 -> HTTP/1, requests.  Full-strength claim: whatever is forwarded is exactly one HTTP/1 request with the
    same method, path, fields and body.  It is false of the faithful model (known findings
-   request-content-length-without-body and request-trailers-crash): *)
+   request-body-without-content-length, request-content-length-without-body and request-trailers-crash).
+   A POST without content-length whose body is a request is read upstream as two requests: *)
+Theorem C06_request_split_refuted :
+  exists out q1 q2,
+    down_request (fun _ => true) [(P_METHOD, [x50;x4f;x53;x54]); (P_SCHEME, V_HTTP); (P_AUTHORITY, W_HOST); (P_PATH, [x2f;x61])]
+                 (Some W_SMUGGLED) None = OForward out false
+    /\ parse_requests strict 3 out = POk [q1; q2] /\ q_target q2 = [x2f;x61;x64;x6d;x69;x6e].
+Proof. exact request_split_witness. Qed.
+Print Assumptions C06_request_split_refuted.
 Theorem C06_request_one_message_refuted :
   exists out, down_request (fun _ => true) (W_REQ [(CONTENT_LENGTH, [x35])]) None None = OForward out false
               /\ parse_requests strict 2 out = PErr Incomplete.
@@ -37,40 +45,39 @@ Theorem C06_request_trailers_refuted :
 Proof. exact request_trailers_witness. Qed.
 Print Assumptions C06_request_trailers_refuted.
 
-(* ... and holds under guards that are the complement of those findings: no trailers; END_STREAM on HEADERS only
-   without a positive content-length (length_guard).  cookie_guard (the last of several cookie fields is not empty)
-   is not a finding: with an empty last cookie the joined value ends in "; " and the reader trims that space, so
-   the field it returns is not literally the one written.  For every url.parse_authority verdict [pa], every header
-   block, body, and every recipient option [o] (bare LF, CR as SP, obs-fold accepted or not) the reference reader
-   finds exactly one request: method and target are the :method and :path values, version HTTP/1.1, the body is the
-   DATA payload (framed by Content-Length, or chunked when the block had none), no trailers, nothing left over. *)
+(* ... and holds under guards that are the complement of those findings: no trailers; a non-empty body is announced
+   by a content-length (framing_guard); END_STREAM on HEADERS only without a positive content-length (length_guard).
+   cookie_guard (the last of several cookie fields is not empty) is not a finding: with an empty last cookie the joined
+   value ends in a space that the reader trims, so the field it returns is not literally the one written.
+   For every url.parse_authority verdict [pa], every header block, body, and every recipient option [o] (bare LF, CR as
+   SP, obs-fold accepted or not) the reference reader finds exactly one request: method and target are the :method and
+   :path values, version HTTP/1.1, the body is the DATA payload, no trailers, nothing left over. *)
 Theorem C06_request_one_message_partial : forall pa h body out c,
   down_request pa h body None = OForward out c ->
-  length_guard None h body -> cookie_guard h ->
+  length_guard None h body -> framing_guard h body -> cookie_guard h ->
   exists r, parse_h2_request_headers pa h = Some r /\
     forall o, parse_requests o 2 out
-      = POk [mkRefReq (hq_method r) (hq_path r) V_HTTP11
-                      (h1_fields (strip_r r) (is_nil (content_of body))) (content_of body) []].
+      = POk [mkRefReq (hq_method r) (hq_path r) V_HTTP11 (h1_fields (strip_r r)) (content_of body) []].
 Proof. exact down_request_one_message. Qed.
 Print Assumptions C06_request_one_message_partial.
 
 (* What that request means: method / scheme / path / authority are the pseudo-header values of the block; the Host
    field is the :authority value (the host field of the block when there is no :authority; h2 guarantees they agree
    when both are present); several cookie fields are joined with "; "; every other end-to-end field (all names but
-   host, cookie, transfer-encoding, expect) is kept with its spelling, value and order. *)
+   host, cookie, expect) is kept with its spelling, value and order. *)
 Theorem C06_request_semantics : forall pa h body out c,
   down_request pa h body None = OForward out c ->
   exists r, parse_h2_request_headers pa h = Some r /\
     (exists q, h = q ++ hq_fields r /\ Forall (fun x => is_pseudo (fst x) = true) q
        /\ In (P_METHOD, hq_method r) q /\ In (P_SCHEME, hq_scheme r) q /\ In (P_PATH, hq_path r) q
        /\ (hq_authority r = [] \/ In (P_AUTHORITY, hq_authority r) q)) /\
-    forall es, let fs := h1_fields (strip_r r) es in
+    let fs := h1_fields (strip_r r) in
       field_values N_HOST fs
         = (if negb (hcontains N_HOST_CAP (hq_fields r)) && nonempty (hq_authority r)
            then [hq_authority r] else field_values N_HOST (hq_fields r))
       /\ field_values N_COOKIE fs
         = match get_all N_COOKIE (hq_fields r) with (_ :: _ :: _) as l => [join_semi l] | l => l end
-      /\ forall k, k <> N_HOST -> k <> N_COOKIE -> k <> TRANSFER_ENCODING -> k <> N_EXPECT ->
+      /\ forall k, k <> N_HOST -> k <> N_COOKIE -> k <> N_EXPECT ->
            filter (name_ci k) fs = filter (name_ci k) (hq_fields r).
 Proof. exact down_request_semantics. Qed.
 Print Assumptions C06_request_semantics.
@@ -126,11 +133,12 @@ Theorem C06_upgrade_response_status : forall st f, (0 <= st <= 999)%Z ->
 Proof. exact format_parse_response. Qed.
 Print Assumptions C06_upgrade_response_status.
 
-(* the hypotheses of the request theorem are satisfiable on a non-trivial value: POST, two cookies, a body that
-   looks like a request, no content-length -> forwarded chunked *)
+(* the hypotheses of the request theorem are satisfiable on a non-trivial value: POST, two cookies (joined on the
+   wire), a body that looks like a request, announced by content-length *)
 Theorem C06_nonvacuous :
   (exists out, down_request (fun _ => true) sample_block (Some sample_body) None = OForward out false
-     /\ contains CHUNKED out = true)
-  /\ length_guard None sample_block (Some sample_body) /\ cookie_guard sample_block.
+     /\ contains W_JOINED out = true)
+  /\ length_guard None sample_block (Some sample_body) /\ framing_guard sample_block (Some sample_body)
+  /\ cookie_guard sample_block.
 Proof. exact sample_ok. Qed.
 Print Assumptions C06_nonvacuous.
